@@ -16,7 +16,8 @@ LEVEL_TEXT = ("Machine-checked Coq theorems for all operands (no size bound): th
               "centred and Euclidean remainders, integer-mixed forms, inv/sqr/cubic/pow, constructors incl. the const gcd loop with its fuel "
               "bound) return exactly the canonical representative of the mathematical rational (stated in Coq's Q), preserve "
               "'denominator > 0, gcd = 1, zero = 0/1', and do so along every finite history of operations over a pool of values "
-              "(induction over the operation list); the Relaxed transcriptions return a positive denominator and the same value in Q. "
+              "(induction over the operation list); the Relaxed transcriptions return a positive denominator and the same value in Q, "
+              "panic exactly when RBig does, and never keep a common factor two (reduce2 removes all of them; also along histories). "
               "The transcriptions are tied to the Rust code by a correspondence run judged by the extracted specification.")
 LEVEL_NOTE = ("Trusted: Coq kernel, the hand transcription of the macro bodies (tied by the correspondence run only; not regenerated), "
               "extraction incl. FastZ.v directives, zarith, the harness. IBig/UBig enter through their Z-level specifications "
